@@ -52,7 +52,7 @@ class FunctionInfo:
 
 class ClassInfo:
     __slots__ = ('name', 'qual', 'node', 'module', 'base_names', 'bases', 'methods', 'attrs', 'is_enum',
-                 'enum_members', 'subclasses', 'slots', 'fields', 'is_record')
+                 'enum_members', 'subclasses', 'slots', 'fields', 'is_record', 'setters', 'deleters')
 
     def __init__(self, name, qual, node, module):
         self.name = name
@@ -62,6 +62,8 @@ class ClassInfo:
         self.base_names = []
         self.bases = []
         self.methods = {}
+        self.setters = {}        # property name -> FunctionInfo of its @name.setter
+        self.deleters = {}
         self.attrs = {}          # class-level name -> ast expr
         self.is_enum = False
         self.enum_members = []   # [(name, ast expr)]
@@ -88,6 +90,14 @@ class ClassInfo:
         for c in self.mro():
             if name in c.attrs:
                 return c, c.attrs[name]
+        return None
+
+    def find_setter(self, name):
+        for c in self.mro():
+            if name in c.setters:
+                return c.setters[name]
+            if name in c.methods or name in c.attrs:
+                return None
         return None
 
     def all_subclasses(self):
@@ -127,6 +137,14 @@ def _decorator_kind(node):
     for d in node.decorator_list:
         if isinstance(d, ast.Name) and d.id in ('classmethod', 'staticmethod', 'property'):
             return d.id
+    return None
+
+
+def _accessor_kind(node):
+    for d in node.decorator_list:
+        if isinstance(d, ast.Attribute) and d.attr in ('setter', 'deleter', 'getter') and isinstance(d.value, ast.Name) \
+                and d.value.id == node.name:
+            return d.attr
     return None
 
 
@@ -206,6 +224,15 @@ class Program:
             for st in node.body:
                 if isinstance(st, ast.FunctionDef):
                     kind = _decorator_kind(st) or 'method'
+                    acc = _accessor_kind(st)
+                    if acc in ('setter', 'deleter'):
+                        # @name.setter / @name.deleter: the attribute stays the property; the accessor is kept beside it
+                        fi = FunctionInfo(st.name, '%s.%s.%s' % (ci.qual, st.name, acc), st, mi, ci, 'method')
+                        (ci.setters if acc == 'setter' else ci.deleters)[st.name] = fi
+                        self.functions[fi.qual] = fi
+                        continue
+                    if acc == 'getter':
+                        kind = 'property'
                     fi = FunctionInfo(st.name, '%s.%s' % (ci.qual, st.name), st, mi, ci, kind)
                     ci.methods[st.name] = fi
                     self.functions[fi.qual] = fi
